@@ -1,0 +1,12 @@
+//go:build !verif
+
+package compose
+
+// Verification hooks are compiled out without the build tag "verif": verifOn is a false constant, so the guarded
+// call sites are dead code, and the functions are empty.
+
+const verifOn = false
+
+func verifEmit(ev string, kv ...any) {}
+
+func verifGate(point string, id string) {}
